@@ -1,4 +1,4 @@
-import Qats.Lemmas.SNMain
+import Qats.Lemmas.SN06Main
 import Mathlib.MeasureTheory.Integral.IntervalIntegral.Basic
 import Mathlib.MeasureTheory.Integral.IntegralEqImproper
 /-!
